@@ -355,7 +355,10 @@ def check_metric(obj, vals, fails, rel, undo_rel, vars_, relvar, undo_relvar, li
       return "scaled variance below the minimum variance", (w, y)
     if y < want * (1 - 1e-6) or (y > want * (1 + 1e-6) and y > 1e-6 * (1 + 1e-12)):
       return "scaled variance is not max(variance * value_scale^2, floor)", (w, y, want)
-    if want > 1e-6 and abs(u - w) > 1e-6 * w:
+    # inverse law for variances, at every magnitude: when nothing was floored (the variance times the squared value scale is clearly above the
+    # floor in force: 1e-10, or 1e-6 in skip mode where the scale is 1), undo_scaling_variances(relative_objective_variance(w)) == w up to
+    # rounding (two multiplications / divisions by scale^2; the measured slope is good to ~1e-15 relative)
+    if want > (1e-6 if not nf else 1e-10) * (1 + 1e-6) and abs(u - w) > 1e-6 * w:
       return "undo_scaling_variances does not invert relative_objective_variance above the floor", (w, u)
   # constant-liar-min = worst non-failed value in the user's sense; after scaling the largest
   if nfv:
@@ -488,14 +491,24 @@ def gen_float_case(rng):
     return [min(1e150, max(-1e150, x)) for x in c]
   fails = gen_fails(rng, n)
   vr = lambda: abs(rng.gauss(0, 1)) * 10.0 ** rng.choice([-14, -8, -3, 0, 0, 2])
+  def col_vars(c):
+    """variances of one metric: absolute sizes 1e-14 .. 1e2 whatever the metric (floored as soon as the metric's range is large), or - as
+    measurement noise goes - commensurate with the metric: a standard deviation of 1e-6 .. 1 of the spread of the non-failed values, so that
+    the scaled variances sit above the floor at every magnitude of the data (range 1e-12 .. 1e100)"""
+    nfv = [x for x, f in zip(c, fails) if not f]
+    spread = (max(nfv) - min(nfv)) if nfv else 0.0
+    if rng.random() < 0.5 or not (1e-150 < spread < 1e100):
+      return [vr() for _ in c]
+    return [(spread * 10.0 ** rng.uniform(-6, 0)) ** 2 for _ in c]
   if kind == "single":
     c = column()
-    return kind, dict(vals=c, fails=fails, obj=rng.choice(["minimize", "maximize", None]), vars=[vr() for _ in range(n)],
+    return kind, dict(vals=c, fails=fails, obj=rng.choice(["minimize", "maximize", None]), vars=col_vars(c),
                       ys=[rng.uniform(-0.2, 0.2) for _ in range(3)], via_view_helper=rng.random() < 0.2)
   m = rng.randint(1, 4)
   cols = [column() for _ in range(m)]
   vals = [[cols[k][r] for k in range(m)] for r in range(n)]
-  vars_ = [[vr() for _ in range(m)] for _ in range(n)]
+  vcols = [col_vars(cols[k]) for k in range(m)]
+  vars_ = [[vcols[k][r] for k in range(m)] for r in range(n)]
   if kind == "multi":
     return kind, dict(m=m, vals=vals, fails=fails, objs=None if rng.random() < 0.15 else [rng.choice(["minimize", "maximize"]) for _ in range(m)], vars=vars_)
   perm = list(range(m))
@@ -549,3 +562,8 @@ LEVEL_NOTE = ("Exact arithmetic over Q: float rounding, cancellation at huge off
               "correspondence; harness, minimal-View builder and case printer trusted; no axioms")
 TECHNIQUE = "Coq proof (case analysis per constructor arm, lra/nra/field over Q, list induction) on executable model + in-Coq differential correspondence"
 DESIGN_REF = "DESIGN.md section 7, C12"
+
+# --- gap round (seeded C12_m8): additions to the claimed level
+LEVEL_TEXT += ("; the searcher states the variance inverse law at every magnitude: whenever variance * (measured value scale)^2 is above the floor in force (1e-10, or 1e-6 in skip "
+               "mode), undo_scaling_variances(relative_objective_variance(w)) = w to 1e-6 relative, on variances commensurate with the metric (standard deviations of 1e-6 .. 1 of the "
+               "spread of the non-failed values, spreads 1e-12 .. 1e100) as well as on absolute ones")
